@@ -119,7 +119,10 @@ def resolve_tags(m, tags):
     from skfem.generic_utils import OrientedBoundary
     sub = {}
     for name, ix in (tags.get('subdomains') or {}).items():
-        sub[name] = np.array(sorted(set(int(i) % m.nelements for i in ix)), dtype=np.int32)
+        arr = sorted(set(int(i) % m.nelements for i in ix))
+        if len(ix) != len(set(ix)) and arr:
+            arr = arr + arr[:1]                # the descriptor names an entity twice: so does the tag
+        sub[name] = np.array(arr, dtype=np.int32)
     bnd = {}
     res_b = {}
     bf = m.boundary_facets()
@@ -133,6 +136,8 @@ def resolve_tags(m, tags):
             f = int(pool[int(k) % len(pool)])
             if f not in idx:
                 idx.append(f)
+        if spec.get('repeat') and idx:
+            idx = idx + idx[:1]
         idx = np.array(idx, dtype=np.int32)
         if spec.get('ori') is not None:
             ori = np.array([int(spec['ori'][i % len(spec['ori'])]) % 2 for i in range(len(idx))], dtype=np.int32)
